@@ -16,7 +16,18 @@ from __future__ import annotations
 from ..comp import CompScenario, leaves
 from ..propbase import PropBase, make_plan, phase_at
 
-DRAIN = 8  # trailing cycles without new items, peer always ready (bounded "every item is emitted")
+DRAIN = 8  # least number of trailing cycles without new items, peer always ready
+
+
+def capacity(cfg):
+    """Items the adapter (and the wrapped stub) can hold: decides how long "every written item is emitted"
+    may take once nothing new is written and the peer is always ready."""
+    if cfg["kind"] == "source":
+        return 1  # the source register
+    if cfg["kind"] == "wrap":
+        stub = cfg["stub_depth"] if cfg["stub"] == "fifo" else 1
+        return stub + 1 + 1  # stub storage + its output register + the source register
+    return 0
 
 
 def _shape(spec):
@@ -109,6 +120,8 @@ class Scen(CompScenario):
         self.offer = None  # sink: payload currently offered by the harness producer
         self.quiet = 0
         self.stall_run = 0
+        self.quiet_bound = capacity(c) + 2  # one cycle per held item, + 2 cycles of register latency
+        self.drain = max(DRAIN, self.quiet_bound)
         return self.top
 
     @staticmethod
@@ -138,7 +151,7 @@ class Scen(CompScenario):
     def stimulus(self, rng, cyc):
         c = self.cfg
         kind, p = phase_at(c["plan"], cyc)
-        drain = cyc >= c["cycles"] - DRAIN
+        drain = cyc >= c["cycles"] - self.drain
         stim = {}
         # (producer probability, consumer probability)
         pw, pr = {
@@ -234,16 +247,22 @@ class Scen(CompScenario):
         for p in ("read", "peek"):
             en = stim.get(f"{p}.en", 0)
             done[p] = obs[f"{p}.done"]
-            if en:
+            # "read is ready iff valid"; of peek the statement only says that it never consumes
+            if en and p == "read":
                 self.expect(obs[f"{p}.runnable"] == valid, "ready-mismatch",
                             f"{p} callable={obs[f'{p}.runnable']} but valid={valid}", port=p)
+            elif en and obs[f"{p}.runnable"] != valid:
+                self.hit("peek_callable_differs_from_valid")
             self.expect(not done[p] or (en and valid), "ran-when-not-callable",
                         f"{p}: en={en} valid={valid} done={done[p]}", port=p)
             if en and valid and not done[p]:
                 self.hit("blocked_though_ready")
             if done[p]:
                 got = self._vals(obs, f"{p}.o.data")
-                self.expect(got == payload, "data-mismatch", f"{p} returned {got}, stream offers {payload}", port=p)
+                if p == "read":
+                    self.expect(got == payload, "data-mismatch", f"{p} returned {got}, stream offers {payload}", port=p)
+                elif got != payload:
+                    self.hit("peek_returned_other_than_offered")
         transfer = bool(valid and ready)
         if done["read"]:
             self.expect(transfer, "read-did-not-consume", f"read executed but ready={ready}: the payload stays offered")
@@ -303,7 +322,7 @@ class Scen(CompScenario):
     def finish(self):
         if self.kind in ("source", "wrap") and self.pending:
             # only decided when the trace really ends with the drain (truncated / shrunk traces do not)
-            if self.quiet < DRAIN - 2:
+            if self.quiet < self.quiet_bound:
                 return
             self.expect(False, "item-not-emitted",
                         f"{len(self.pending)} written item(s) never left although the peer was ready for {self.quiet} cycles: "
@@ -332,6 +351,9 @@ class Prop(PropBase):
              "PassThrough: the stream module wrapped by StreamModuleWrapper (1-entry register, 1-entry pipe, or "
              "amaranth SyncFIFOBuffered, with a free stall input) is defined by the harness",
              "list reference model (outstanding items)"]
+    assumptions = ["'every written item is emitted' has no latency in the statement: an item counts as not emitted when it is "
+                   "still outstanding at the end of a run after capacity + 2 cycles without a new write and with the peer always "
+                   "ready (capacity = source register, + stub storage + its output register for the wrapper)"]
     search_space = "adapter kinds, payload shapes and handshake histories with consumer stalls and producer gaps"
 
     def gen_config(self, rng, tier, idx):
